@@ -23,6 +23,7 @@ var Redirects = map[string][2]string{
 	"path/filepath": {"filepath", "verif.local/sim/simfilepath"},
 	"io/ioutil":     {"ioutil", "verif.local/sim/simioutil"},
 	"os/signal":     {"signal", "verif.local/sim/simsignal"},
+	"go/parser":     {"parser", "verif.local/sim/simparser"},
 	"time":          {"time", "verif.local/sim/simtime"},
 	"math/rand":     {"rand", "verif.local/sim/simrand"},
 	"math/rand/v2":  {"rand", "verif.local/sim/simrandv2"},
